@@ -159,28 +159,59 @@ def phsp_registry():
     return out
 
 
+def _channel_of(m1, m2) -> int:
+    if isinstance(m1, sp.Indexed) and isinstance(m2, sp.Indexed) and m1.indices == m2.indices \
+            and str(m1.base.label) == "m_a" and str(m2.base.label) == "m_b":
+        return int(m1.indices[0])
+    return 99
+
+
+def _pole_of(x) -> int:
+    """0 for the Mandelstam variable `s`, R for `m[R]` or `m[R]**2`, 99 for anything else."""
+    if isinstance(x, sp.Symbol) and x.name == "s":
+        return 0
+    if isinstance(x, sp.Pow) and x.exp == 2:
+        x = x.base
+    if isinstance(x, sp.Indexed) and str(x.base.label) == "m" and isinstance(x.indices[0], sp.Integer):
+        return int(x.indices[0])
+    return 99
+
+
 def occurrences(matrix, registry: dict, extra_classes=()) -> dict:
     """Which phase-space implementations, angular momenta and meson radii occur in a formulated
-    matrix (before doit): class of every phase-space node, `phsp_factor` attribute and L / radius
-    arguments of every EnergyDependentWidth, L / radius of every FormFactor."""
+    matrix (before doit, sums over the poles written out): class of every phase-space node,
+    `phsp_factor` attribute and L / radius arguments of every EnergyDependentWidth, L / radius of every
+    FormFactor — as sets and itemised per (pole, channel):
+        ("W", R, i, phsp, L, d)   energy-dependent width of pole R in channel i
+        ("F", R, i, "",   L, d)   form factor of channel i at s (R = 0) or at m_R² (R ≥ 1)
+        ("R", R, i, phsp, "", "") phase-space node of channel i at s (R = 0) or at m_R²"""
     from ampform.dynamics import EnergyDependentWidth
     from ampform.dynamics.form_factor import FormFactor
 
+    from tools.corr.C09_runner import unroll_sums
+
     classes = {c for c in registry.values() if isinstance(c, type)} | set(extra_classes)
-    phsp, Ls, ds = set(), set(), set()
+    phsp, Ls, ds, items = set(), set(), set(), set()
 
     def name_of(f):
         return getattr(f, "__name__", repr(f))
 
     for entry in matrix:
-        for node in sp.preorder_traversal(entry):
+        for node in sp.preorder_traversal(unroll_sums(entry)):
             if isinstance(node, EnergyDependentWidth):
                 phsp.add(name_of(node.phsp_factor))
                 Ls.add(str(node.angular_momentum))
                 ds.add(str(node.meson_radius))
+                items.add(("W", _pole_of(node.mass0), _channel_of(node.m_a, node.m_b), name_of(node.phsp_factor),
+                           str(node.angular_momentum), str(node.meson_radius)))
             elif isinstance(node, FormFactor):
                 Ls.add(str(node.angular_momentum))
                 ds.add(str(node.meson_radius))
+                items.add(("F", _pole_of(node.s), _channel_of(node.m1, node.m2), "",
+                           str(node.angular_momentum), str(node.meson_radius)))
             elif type(node) in classes:
                 phsp.add(type(node).__name__)
-    return {"phsp": sorted(phsp), "L": sorted(Ls), "d": sorted(ds)}
+                a = node.args
+                items.add(("R", _pole_of(a[0]), _channel_of(a[1], a[2]) if len(a) >= 3 else 99,
+                           type(node).__name__, "", ""))
+    return {"phsp": sorted(phsp), "L": sorted(Ls), "d": sorted(ds), "items": sorted(items)}
